@@ -967,6 +967,8 @@ class Interp:
                     if key[0][0] == 'L' and key[0][1] > fr.fid and not self.frame_alive(st, key[0][1]):
                         continue
                     if entry_mem.get(key) != val and not (val[0] == 'lv' and val[1] == lvname):
+                        if key[0][0] == 'T' and self.mentions_elem_of(key[0][1], uid):
+                            continue      # memory of this iteration's own element: fresh in every iteration
                         W2.add(key)
                 for key in entry_mem:
                     if key not in s.mem:
@@ -1013,6 +1015,12 @@ class Interp:
                     finished.append(s)
                 else:
                     finished.append(s)
+
+    def mentions_elem_of(self, t, uid):
+        for x in subterms(t):
+            if isinstance(x, tuple) and x and x[0] in ('elem', 'elemref') and len(x) == 3 and x[2] == uid:
+                return True
+        return False
 
     def frame_alive(self, st, fid):
         return any(f.fid == fid for f in st.frames)
